@@ -81,6 +81,17 @@ CHECKS.update({
         'the zero-padded FFT autocorrelation is replaced by its mathematical meaning (direct sums) and validated per case to 1e-9; sqrt and float matrix products by tolerance',
         '4/C06',
     ),
+    'C13': (
+        'Theorems (GProofs/C13.lean) on the list-level model that follows the code path (selection through filter = through wrapped '
+        'positions): the corrected trajectory keeps the original base positions and first frame; under SmallSteps and a non-empty '
+        'reference selection the residual per-frame drift of the reference atoms is zero in EVERY frame (residual_drift_zero) and a second '
+        'correction returns the very same state (idempotent); algebraic core mean_sub_mean, minImg1_small_shift; small_steps_needed shows '
+        'the precondition is necessary. Tie: exact on dyadic inputs (1,2,4 reference atoms), 1e-12 otherwise; Element and Species inputs; all selection forms.',
+        'first_frame_unchanged is proved for frames of 3*atoms coordinates (first_frame_unchanged_partial; the unrestricted statement is false for malformed frame '
+        'lengths, counterexample in the file); rigid-drift invariance and floating = complement of fixed are checked on the implementation '
+        '(metamorphic, exact) but have no separate theorem; SmallSteps is a domain precondition; defect D10 repaired by a fix commit',
+        '4/C13',
+    ),
     'C15': (
         'Theorems (GProofs/C15.lean): a state machine of the trajectory container (positions/displacements storage, base positions) — every '
         'mode switch keeps the state well formed and keeps the positions it denotes; by induction NO sequence of read-only queries changes '
